@@ -12,10 +12,11 @@ THEOREMS = ["C06_partial", "C06_refuted_rename", "C06_refuted_rename_across_stat
             "C06_refuted_private_reexport", "C06_refuted_only_empty", "C06_refuted_only_dup",
             "C06_statement_refuted", "C06_order_independent", "C06_toposort_is_topo",
             "C06_private_never_imported", "C06_spec_private_never_accessible", "C06_fuel_enough",
-            "C06_example_hypotheses", "C06_nested_partial", "C06_nested_refuted_absbody",
-            "C06_nested_refuted_genbody", "C06_nested_statement_refuted", "C06_nested_example"]
+            "C06_example_hypotheses", "C06_nested_partial", "C06_nested_refuted_rename",
+            "C06_nested_statement_refuted", "C06_nested_fixed_absbody", "C06_nested_fixed_genbody",
+            "C06_nested_example"]
 REGION_KEYS = {1: "rename-without-only", 2: "private-import-reexported", 4: "only-empty-imports-all",
-               8: "only-duplicate-remote", 16: "use-in-abstract-interface-body-ignored"}
+               8: "only-duplicate-remote"}
 
 
 # ----------------------------------------------------------------------------- fixed cases
@@ -317,7 +318,7 @@ class Runner:
             payload = {"label": label, "units": units, "files": files, "code": code,
                        "meaning": "bit0 model!=impl; bit1 impl differs from the Spec at a name / reference where the model "
                                   "agrees with the Spec (not explained by a recorded defect); bits>=2: region mask "
-                                  "(1 rename,2 private,4 only-empty,8 only-dup,16 use in abstract/generic interface body), "
+                                  "(1 rename,2 private,4 only-empty,8 only-dup), "
                                   "32 not legal, 64 impl differs from the Spec somewhere",
                        "observed": groups[0][0], "runs": [g[1][:3] for g in groups],
                        "file_orders": [m[0] for g in groups for m in g[1][:3]]}
@@ -498,10 +499,14 @@ def replay_findings(chk):
             return None
         q = [x for x in obs["nested"] if x["unit"] == "mm" and x["path"] == path]
         return dict(q[0]["all"][2]) if q else None
-    t = nested_types(witness_absbody(), ["cb"])
-    chk.known("use-in-abstract-interface-body-ignored", t is not None and "ta" not in t)
-    t = nested_types(witness_genbody(), ["ext"])
-    chk.known("use-in-generic-interface-body-not-a-dependency", t is not None and "ta" not in t)
+    # repaired in /repo (fixed: entries in known_findings.d/C06.json): failing inputs if they return
+    for w, path, what in ((witness_absbody, ["cb"], "a USE statement in the body of an abstract interface is ignored"),
+                          (witness_genbody, ["ext"], "a USE statement in a body inside a generic interface block is not a "
+                                                     "dependency of the module")):
+        t = nested_types(w(), path)
+        if t is None or "ta" not in t:
+            chk.violation("failing-input", {"what": what, "types_of_the_body": t, "units": w(),
+                                            "files": G.render_files(w())[0]}, True)
 
 
 def replay(chk, rep):
@@ -532,7 +537,6 @@ def finish(chk):
         checker_cmd="make theories/Props/C06.vo && coqc theories/Props/C06.v (Print Assumptions)",
         assumptions=["toposort package modelled as level-wise topological sort",
                      "names in a scope are unambiguous (legal Fortran) for the Spec comparison",
-                     "nested scopes (module/internal procedures, interface bodies): FORD shares the module's "
-                     "dictionaries with them (C07's domain), so their dictionaries and those of their module are "
-                     "compared as lower bounds (every identifier the model / the Spec makes accessible by use "
-                     "association or from the module must be present with the right entity)"])
+                     "nested scopes (module/internal procedures, interface bodies): of their dictionaries the "
+                     "use-associated part (entities of other modules) and what comes from the module is compared "
+                     "exactly; declarations local to procedures are C07's domain"])
